@@ -39,10 +39,57 @@ func poolSize() int {
 	return 256
 }
 
+// configMode is a persisted server configuration the torn log is started
+// under: the config file written next to the log, and the command that takes
+// the running server back to an ordinary read/write leader. The oracle is the
+// same in every mode: the start-up itself must have cut the file back.
+type configMode struct {
+	config string   // content of <dir>/config before the first start
+	exit   []string // sent (and must answer +OK) before reads/writes are possible
+	auth   string   // password every connection has to present
+}
+
+var configModes = map[string]configMode{
+	"":          {},
+	"read-only": {config: `{"read_only":true}`, exit: []string{"READONLY", "no"}},
+	// a follower whose leader is unreachable (nothing listens on port 1): the
+	// start-up loads the local log like any other; reads are refused with
+	// "catching up to leader" until FOLLOW no one
+	"follower":    {config: `{"follow_host":"127.0.0.1","follow_port":1}`, exit: []string{"FOLLOW", "no", "one"}},
+	"requirepass": {config: `{"requirepass":"c04-secret"}`, auth: "c04-secret"},
+}
+
+var modeCycle = []string{"", "read-only", "follower", "requirepass"}
+
+func modeText(m string) string {
+	if m == "" {
+		return ""
+	}
+	return ", persisted config " + m
+}
+
+// authenticate presents the password of the mode, if any. refused != "" is a
+// verdict (the server did not accept its own configured password).
+func authenticate(conn *t38.Conn, mode string) (refused string, err error) {
+	pw := configModes[mode].auth
+	if pw == "" {
+		return "", nil
+	}
+	v, err := conn.Do("AUTH", pw)
+	if err != nil {
+		return "", &hiccup{what: "AUTH: " + err.Error()}
+	}
+	if v.Kind != '+' || v.Str != "OK" {
+		return fmt.Sprintf("AUTH with the configured password answered %s", v), nil
+	}
+	return "", nil
+}
+
 var probeCmd = []string{"SET", "c04:probe", "after-recovery", "POINT", "12.5", "-33.25"}
 
 // failure is a violated oracle clause for one cut.
 type failure struct {
+	Mode string `json:"mode,omitempty"`
 	Cut  int    `json:"cut"`
 	Key  string `json:"key"`
 	What string `json:"what"`
@@ -63,7 +110,7 @@ func (h *hiccup) Error() string { return h.what }
 // settle turns a persistent hiccup into its final verdict.
 func settle(b *built, ci cutInfo, err error) (*failure, error) {
 	if h, ok := err.(*hiccup); ok && h.escalate != "" {
-		return &failure{Cut: ci.cut, Key: h.escalate, What: fmt.Sprintf("log %s cut %d (%s): on every one of the attempts: %s", b.id, ci.cut, ci.class, h.what)}, nil
+		return &failure{Mode: ci.mode, Cut: ci.cut, Key: h.escalate, What: fmt.Sprintf("log %s cut %d (%s): on every one of the attempts: %s", b.id, ci.cut, ci.class, h.what)}, nil
 	}
 	return nil, err
 }
@@ -239,7 +286,7 @@ type phase2 struct {
 func phase1(b *built, ci cutInfo) (*failure, *phase2, error) {
 	c := ci.cut
 	fail := func(key, format string, a ...any) (*failure, *phase2, error) {
-		return &failure{Cut: c, Key: key, What: fmt.Sprintf("log %s cut %d (%s, %d complete commands before): ", b.id, c, ci.class, ci.k) + fmt.Sprintf(format, a...)}, nil, nil
+		return &failure{Mode: ci.mode, Cut: c, Key: key, What: fmt.Sprintf("log %s cut %d (%s, %d complete commands before%s): ", b.id, c, ci.class, ci.k, modeText(ci.mode)) + fmt.Sprintf(format, a...)}, nil, nil
 	}
 	dir := t38.NewDir("c04")
 	aof := filepath.Join(dir, "appendonly.aof")
@@ -247,7 +294,13 @@ func phase1(b *built, ci cutInfo) (*failure, *phase2, error) {
 		os.RemoveAll(dir)
 		return nil, nil, &hiccup{what: "write: " + err.Error()}
 	}
-	t38.JournalNote(fmt.Sprintf("C04 start on log %s cut %d class %s", b.id, c, ci.class))
+	if cfg := configModes[ci.mode].config; cfg != "" {
+		if err := os.WriteFile(filepath.Join(dir, "config"), []byte(cfg), 0o600); err != nil {
+			os.RemoveAll(dir)
+			return nil, nil, &hiccup{what: "write: " + err.Error()}
+		}
+	}
+	t38.JournalNote(fmt.Sprintf("C04 start on log %s cut %d class %s config %q", b.id, c, ci.class, ci.mode))
 	acquire()
 	srv, err := t38.Start(t38.Opts{Dir: dir})
 	if err != nil {
@@ -263,17 +316,47 @@ func phase1(b *built, ci cutInfo) (*failure, *phase2, error) {
 		return nil, nil, &hiccup{what: "dial: " + err.Error()}
 	}
 	done := func() { retire(srv, conn, dir) }
+	if f, err := authenticate(conn, ci.mode); f != "" || err != nil {
+		done()
+		if err != nil {
+			return nil, nil, err
+		}
+		return fail("config-auth-refused", "%s", f)
+	}
+
+	// (1) repaired file, as the start-up left it (read before the server is
+	// taken out of its persisted read-only / follower mode)
+	got, err := os.ReadFile(aof)
+	if err != nil {
+		done()
+		return nil, nil, &hiccup{what: "read: " + err.Error()}
+	}
+	if exit := configModes[ci.mode].exit; exit != nil {
+		v, err := conn.Do(exit...)
+		if err != nil {
+			done()
+			return nil, nil, &hiccup{what: fmt.Sprintf("%v: %v", exit, err)}
+		}
+		if v.Kind != '+' || v.Str != "OK" {
+			done()
+			return fail("config-exit-refused", "%v answered %s", exit, v)
+		}
+	}
 	aofsz, err := verifyIdentity(dir, conn)
 	if err != nil {
 		done()
 		return nil, nil, err
 	}
-
-	// (1) repaired file
-	got, err := os.ReadFile(aof)
-	if err != nil {
-		done()
-		return nil, nil, &hiccup{what: "read: " + err.Error()}
+	if configModes[ci.mode].exit != nil {
+		again, err := os.ReadFile(aof)
+		if err != nil {
+			done()
+			return nil, nil, &hiccup{what: "read: " + err.Error()}
+		}
+		if !bytes.Equal(again, got) {
+			done()
+			return fail("file-changed-by-mode-switch", "%v changed the log: %d bytes before, %d after, first difference at %d", configModes[ci.mode].exit, len(got), len(again), firstDiff(again, got))
+		}
 	}
 	switch {
 	case len(got) > c:
@@ -360,7 +443,7 @@ func firstDiff(a, b []byte) int {
 func (p *phase2) run(b *built) (*failure, error) {
 	c := p.ci.cut
 	fail := func(key, format string, a ...any) (*failure, error) {
-		return &failure{Cut: c, Key: key, What: fmt.Sprintf("log %s cut %d (%s), second restart: ", b.id, c, p.ci.class) + fmt.Sprintf(format, a...)}, nil
+		return &failure{Mode: p.ci.mode, Cut: c, Key: key, What: fmt.Sprintf("log %s cut %d (%s%s), second restart: ", b.id, c, p.ci.class, modeText(p.ci.mode)) + fmt.Sprintf(format, a...)}, nil
 	}
 	aof := filepath.Join(p.dir, "appendonly.aof")
 	if err := p.srv.Stop(); err != nil {
@@ -397,6 +480,13 @@ func (p *phase2) run(b *built) (*failure, error) {
 		return nil, &hiccup{what: "dial: " + err.Error()}
 	}
 	done := func() { retire(srv, conn, p.dir) }
+	if f, err := authenticate(conn, p.ci.mode); f != "" || err != nil {
+		done()
+		if err != nil {
+			return nil, err
+		}
+		return fail("config-auth-refused", "%s", f)
+	}
 	aofsz, err := verifyIdentity(p.dir, conn)
 	if err != nil {
 		done()
@@ -432,8 +522,9 @@ func (p *phase2) run(b *built) (*failure, error) {
 }
 
 // runCutSync runs both parts of one cut (replay, shrinking, probes).
-func runCutSync(b *built, c int) (*failure, error) {
+func runCutSync(b *built, c int, mode string) (*failure, error) {
 	ci := b.info(c)
+	ci.mode = mode
 	for attempt := 0; ; attempt++ {
 		f, p2, err := phase1(b, ci)
 		if err == nil && f == nil {
@@ -452,7 +543,7 @@ func runCutSync(b *built, c int) (*failure, error) {
 // runCuts runs every cut of the list with `workers` parallel recovery workers
 // and background restarts. It returns the failures found (the run stops early
 // after the first one) and the harness hiccups that persisted.
-func runCuts(b *built, cuts []int, workers int, visit func(ci cutInfo)) (fails []failure, hiccups []string, dispatched int) {
+func runCuts(b *built, cuts []int, workers int, modeOf func(c int) string, visit func(ci cutInfo)) (fails []failure, hiccups []string, dispatched int) {
 	var mu sync.Mutex
 	var wg, wg2 sync.WaitGroup
 	stop := false
@@ -489,6 +580,9 @@ func runCuts(b *built, cuts []int, workers int, visit func(ci cutInfo)) (fails [
 				next++
 				mu.Unlock()
 				ci := b.info(c)
+				if modeOf != nil {
+					ci.mode = modeOf(c)
+				}
 				var f *failure
 				var p2 *phase2
 				var err error
@@ -511,7 +605,7 @@ func runCuts(b *built, cuts []int, workers int, visit func(ci cutInfo)) (fails [
 					f, err := p2.run(b)
 					if err != nil {
 						// one synchronous retry of the whole cut
-						f, err = runCutSync(b, ci.cut)
+						f, err = runCutSync(b, ci.cut, ci.mode)
 					}
 					record(f, err, ci)
 					if f == nil && err == nil {
